@@ -122,7 +122,7 @@ def run_case(case: dict) -> Result:
                         if isinstance(t, O.Newline):
                             breaks += t.raw_text.count('\n')
                             continue
-                        if isinstance(t, O.BlockComment) and breaks == 1 and not t.claimed and bool(t.indent) == indented:
+                        if isinstance(t, O.BlockComment) and breaks == 1 and not t.claimed and (t.raw_text[:1] in (' ', '\t')) == indented:   # judged on the text, not on what the library parsed as indent
                             claimable = True
                         break
         except Exception:  # noqa: BLE001
